@@ -88,6 +88,40 @@ def next (cur mn sp : Pos) : Pos :=
   | [] => []
   | x :: xs => carry ((x + 1) :: xs) mn sp
 
+/-- one step of the fold in `next_position`, read literally: `Index = i`, reads of `result[i]`, `sup[i]`,
+    writes of `result[i] = min[i]` and `++result[i+1]`.  The indices are compile-time constants below the
+    static size, so there is no out-of-range case in C++; on lists of other lengths the step does nothing. -/
+def nextStep (mn sp : Pos) (r : Pos) (i : Nat) : Pos :=
+  match r[i]?, sp[i]?, mn[i]?, r[i + 1]? with
+  | some ri, some si, some mi, some rj => if ri == si then (r.set i mi).set (i + 1) (rj + 1) else r
+  | _, _, _, _ => r
+
+/-- `grid::next_position` as the literal `fcppt::algorithm::fold` over `int_range_count<Size - 1>`
+    (`nextFold_eq_next`: the same function as `next`) -/
+def nextFold (cur mn sp : Pos) : Pos :=
+  match cur with
+  | [] => []
+  | x :: xs => (List.range (cur.length - 1)).foldl (nextStep mn sp) ((x + 1) :: xs)
+
+/-! ### the unsigned instantiation: arithmetic modulo `2^w` (`std::size_t`: `w = 64`) -/
+
+/-- reduction of a mathematical result into the value range of a `w`-bit unsigned type -/
+def wrap (w : Nat) (x : Int) : Int := x % (2 : Int) ^ w
+
+/-- `dim::contents` with every multiplication reduced modulo `2^w` -/
+def contentsW (w : Nat) (d : List Int) : Int := d.foldl (fun v x => wrap w (v * x)) (wrap w 1)
+
+/-- the fold step of `offset` with every multiplication / addition reduced modulo `2^w` -/
+def offsetStepW (w : Nat) (acc : Int × Int) (pd : Int × Int) : Int × Int :=
+  let stacked := wrap w (acc.2 * pd.2)
+  (wrap w (acc.1 + wrap w (pd.1 * stacked)), stacked)
+
+/-- `grid::offset` for a `w`-bit unsigned `SizeType` -/
+def offsetW (w : Nat) (p d : List Int) : Int :=
+  match p with
+  | [] => 0
+  | x :: xs => ((xs.zip d).foldl (offsetStepW w) (wrap w x, wrap w 1)).1
+
 /-- the `vector::init` of `end_position`: `Index < Size-1 ? min[Index] : sup[Index]` -/
 def endInit : Pos → Pos → Pos
   | [_], [s] => [s]
@@ -196,6 +230,12 @@ def apply (f : α → List α → β) (g1 : Grid α) (gs : List (Grid α)) : Exc
 /-- `grid::fill(grid, function)` -/
 def fill (g : Grid α) (f : Pos → α) : Except Fault (Grid α) := do
   let ps ← posRange (zeros g.size) g.size
+  ps.foldlM (fun g p => g.setUnsafe p (f p)) g
+
+/-- writing through the references of `make_pos_ref_range_start_end(grid, min, sup)`:
+    `for (auto const &e : range) e.value() = f(e.pos())` (`fill` is the case of the whole grid) -/
+def fillRange (g : Grid α) (mn sp : Pos) (f : Pos → α) : Except Fault (Grid α) := do
+  let ps ← posRange mn sp
   ps.foldlM (fun g p => g.setUnsafe p (f p)) g
 
 end Grid
